@@ -1017,8 +1017,30 @@ def extra_c01(pid, tier, seed, workdir, known, write_replay):
     # the theorems' conclusions evaluated on the REAL output of the modules that meet their hypotheses
     for (cid, opt), detail in static_spec:
         items.append((signature_of_static(detail), f"option set {opt}: {detail[5:300]}", cid, True))
+    # mutation test of the fact reader itself (harness reader_selftest): single-token mutations of real generated texts must change
+    # the facts; the only tolerated blind spots are a dropped `&` / `;` (type-level only: rustc's business, covered by the batch above)
+    rcases = write_stream_file([("fixtures",), ("gen", "general", seed, 25 if tier == "quick" else 300), ("gen", "entries", seed, 15 if tier == "quick" else 200),
+                                ("names", 40, seed)], os.path.join(workdir, "reader.cases"))
+    rs = subprocess.run([os.path.join(BIN, "reader_selftest"), "--opts", "0,21", "--per-text", "40" if tier == "quick" else "120", "--seed", str(seed)],
+                        stdin=open(rcases), stdout=subprocess.PIPE, stderr=subprocess.PIPE, text=True)
+    reader = {}
+    for line in rs.stdout.split("\n"):
+        if line.startswith("(summary"):
+            t = parse_sexp(line)[0]
+            for sec in t[1:]:
+                if sec[0] in ("texts", "mutants", "undetected"):
+                    reader[sec[0]] = int(sec[1])
+                elif sec[0] == "by-kind-tried-undetected":
+                    reader["by_kind"] = {k[0]: [int(k[1]), int(k[2])] for k in sec[1:]}
+        elif line.startswith("(mutation"):
+            t = parse_sexp(line)[0]
+            kind = t[3]
+            if kind not in ("reference-operator-deleted", "semicolon-deleted"):
+                items.append((f"reader#insensitive-{kind}", f"the fact reader does not notice a {kind} mutation of the real output: `{sx(t[5])[:120]}` -> `{sx(t[6])[:120]}`", sx(t[1]), False))
+    if not reader.get("mutants"):
+        items.append(("reader#harness", "reader_selftest produced no mutants: " + rs.stderr[-200:], "", False))
     viol, kn = classify_and_report(pid, items, known, write_replay, case_by_id)
-    return {"modules_compiled": nmod, "rustc_verdicts": counts,
+    return {"modules_compiled": nmod, "rustc_verdicts": counts, "fact_reader_mutation_test": reader,
             "ruststatic_vs_rustc": scounts, "ruststatic_predictions": len(pred), "benign_hypotheses_hold": benign,
             "oracle": "cargo check of the real generated modules against wgpu 24.0.5, bytemuck 1.25 (derive), encase 0.10 (glam), glam 0.29, serde 1 (nalgebra is not in the offline registry: never compiled); "
                       "Ext.RustStatic (Lean) is evaluated on the facts of the same modules and held against rustc's verdict both ways"}, viol, kn, []
